@@ -138,8 +138,9 @@ theorem subLoop_sound (etype : Ty) : ∀ (cs acc l : List Ty), subLoop etype cs 
       · exact Or.inl h'
       · exact Or.inr ⟨List.mem_cons_of_mem _ h1, h2, h3⟩
     · rename_i hne
-      rcases FR.ofRes_ok h with ⟨hy, h⟩ | ⟨_, h⟩
-      · rcases ih _ _ h r hr with h' | ⟨h1, h2, h3⟩
+      split at h
+      · rename_i hy
+        rcases ih _ _ h r hr with h' | ⟨h1, h2, h3⟩
         · rcases mem_addTy h' with h' | h'
           · exact Or.inl h'
           · subst h'
@@ -148,6 +149,9 @@ theorem subLoop_sound (etype : Ty) : ∀ (cs acc l : List Ty), subLoop etype cs 
       · rcases ih _ _ h r hr with h' | ⟨h1, h2, h3⟩
         · exact Or.inl h'
         · exact Or.inr ⟨List.mem_cons_of_mem _ h1, h2, h3⟩
+      · cases h
+      · cases h
+      · cases h
 
 /-- the accumulator only grows (as a set) -/
 theorem subLoop_acc (etype : Ty) : ∀ (cs acc l : List Ty), subLoop etype cs acc = .ok l →
@@ -164,9 +168,12 @@ theorem subLoop_acc (etype : Ty) : ∀ (cs acc l : List Ty), subLoop etype cs ac
     unfold subLoop at h
     split at h
     · exact ih _ _ h y hy
-    · rcases FR.ofRes_ok h with ⟨_, h⟩ | ⟨_, h⟩
+    · split at h
       · exact ih _ _ h y (memBeq_mono_addTy hy)
       · exact ih _ _ h y hy
+      · cases h
+      · cases h
+      · cases h
 
 /-- completeness of the loop: every element of `types` that is not `==` the query and that
     `is_subtype` accepts is represented in the result -/
@@ -180,15 +187,16 @@ theorem subLoop_complete (etype : Ty) : ∀ (cs acc l : List Ty), subLoop etype 
     intro acc l h c hc hcc hne hy
     unfold subLoop at h
     rcases List.mem_cons.1 hc with rfl | hc
-    · rw [if_neg (by simp [hne])] at h
-      rcases FR.ofRes_ok h with ⟨_, h⟩ | ⟨hn, _⟩
-      · exact subLoop_acc etype _ _ _ h c (memBeq_addTy_self hcc)
-      · rw [hy] at hn; cases hn
+    · rw [if_neg (by simp [hne]), hy] at h
+      exact subLoop_acc etype _ _ _ h c (memBeq_addTy_self hcc)
     · split at h
       · exact ih _ _ h c hc hcc hne hy
-      · rcases FR.ofRes_ok h with ⟨_, h⟩ | ⟨_, h⟩
+      · split at h
         · exact ih _ _ h c hc hcc hne hy
         · exact ih _ _ h c hc hcc hne hy
+        · cases h
+        · cases h
+        · cases h
 
 /-! ## the bound filter -/
 
